@@ -73,6 +73,10 @@ class KrausChannel(raw_types.Gate):
             return False
         return np.allclose(np.asarray(self._kraus_ops), np.asarray(other._kraus_ops))
 
+    def __hash__(self) -> int:
+        # __eq__ compares the operators approximately, so only exactly compared data may be hashed.
+        return hash((KrausChannel, self._key, self._num_qubits))
+
     def num_qubits(self) -> int:
         return self._num_qubits
 
